@@ -65,12 +65,45 @@ func (p *Prog) callsIn(fn *ssa.Function, names ...string) []ssa.CallInstruction 
 				continue
 			}
 			n := p.calleeName(ci.Common())
+			hit := false
 			for _, want := range names {
 				if n == want {
-					out = append(out, ci)
+					hit = true
 				}
 			}
+			// a function chosen into a variable and then called (`f := A; if c { f = B }; f(x)`)
+			// is a call of each of the functions it may hold
+			if !hit && ci.Common().StaticCallee() == nil && !ci.Common().IsInvoke() {
+				for _, alt := range p.mayCall(ci.Common()) {
+					for _, want := range names {
+						if alt == want {
+							hit = true
+						}
+					}
+				}
+			}
+			if hit {
+				out = append(out, ci)
+			}
 		}
+	}
+	return out
+}
+
+// mayCall: the names of the functions a call through a merged function value may reach, when every
+// value merged into it is a function of the program (empty otherwise).
+func (p *Prog) mayCall(cc *ssa.CallCommon) []string {
+	ph, ok := cc.Value.(*ssa.Phi)
+	if !ok {
+		return nil
+	}
+	var out []string
+	for _, lf := range phiLeaves(ph, nil, map[*ssa.Phi]bool{}) {
+		f, ok := lf.V.(*ssa.Function)
+		if !ok {
+			return nil
+		}
+		out = append(out, p.FName(f))
 	}
 	return out
 }
